@@ -157,7 +157,63 @@ class C05Flatten(Case):
         return obs
 
 
+class C05Sub(Case):
+    """Queries composed of nested sub-queries (the C15 family, correlated ones included): caching enabled x2 evaluations and
+    caching disabled x2 evaluations of the composed query on the same data, each compared with the inlined reference."""
+    prop = "C05"
+
+    def run(self, mk):
+        from entity_query_language.cache_data import enable_caching, disable_caching
+        from props import c15
+        from symex.eqlshapes import an, entity, set_of, symbolic_mode
+        _wrap_retrieve()
+        sp = self.spec["sub"]
+        flat = c15.flatten_tree(sp["tree"])
+        pools = Q.make_pools(mk, dict(sp, cond=flat))
+        data = dict(pools=pools, flat=flat, rows=[])
+        views = []
+        h0 = HITS["n"]
+        form = "entity" if len(sp["select"]) == 1 else "set_of"
+        try:
+            for mode in ("on", "off"):
+                (enable_caching if mode == "on" else disable_caching)()
+                with symbolic_mode():
+                    V = Q.declare_vars(sp, pools)
+                    sel = [S.build_operand(o, V) for o in sp["select"]]
+                    conds = [c15.build_tree(sp["tree"], V)]
+                    q = an(entity(sel[0], *conds)) if len(sel) == 1 else an(set_of(sel, *conds))
+                for rep in range(2):
+                    rows = Q.rows_of(list(q.evaluate()), sel, dict(sp, form=form), pools)
+                    data["rows"].append(("%s#%d" % (mode, rep), rows))
+                    views.append(Q.view(rows, sp))
+        except Exception as e:
+            enable_caching()
+            return data, ["exc", type(e).__name__, str(e)[:200]]
+        enable_caching()
+        data["hits"] = HITS["n"] - h0
+        return data, views
+
+    def metrics(self, data, outcome):
+        return dict(cache_hits=data.get("hits", 0), paths_with_cache_hit=1 if data.get("hits", 0) else 0)
+
+    def obligations(self, alg, data, outcome):
+        if outcome and outcome[0] == "exc":
+            return [("no_exception:%s" % outcome[1], alg.const(False))]
+        sp = self.spec["sub"]
+        pools = data["pools"]
+        allobjs = [o for p in pools.values() for o in p]
+
+        def sat(sigma):
+            return Q.holds(alg, data["flat"], Q.env_of(sigma, sp, pools), allobjs)
+        obs = []
+        for tag, rows in data["rows"]:
+            obs += Q.row_obligations(alg, rows, sp, pools, sat, demand_no_dup=False, prefix=tag + ":")
+        return obs
+
+
 def make_case(spec):
+    if "sub" in spec:
+        return C05Sub(spec)
     if "flatten" in spec:
         return C05Flatten(spec)
     if "rule" in spec:
@@ -233,6 +289,17 @@ def shapes(tier, seed):
               ["and", E("x", "a", "y", "a"), ["not", ["and", ["cmp", "ne", ["a", "x", "b"], ["a", "w", "b"]],
                                                        ["cmp", "ne", ["a", "y", "b"], ["a", "w", "c"]], ["cmp", "le", ["a", "x", "c"], ["lit", 1]]]]]]:
         add(c, select=[["v", "x"], ["v", "y"], ["v", "w"]], base=B3)
+    # nested sub-queries, correlated with the enclosing query (their condition reads a variable they do not select), as right /
+    # left operand of & and |
+    TWOs = dict(pools={"X": 2, "Y": 2}, refs={"X": "Y"}, vars={"x": "X", "y": "Y"})
+    sx = lambda c: ["sub", "entity", ["x"], c]
+    sy = lambda c: ["sub", "entity", ["y"], c]
+    for sel in ([["v", "x"], ["v", "y"]], [["v", "y"]]):
+        for (a_, b_) in [(J[3], SY[0]), (J[5], SX[1]), (J[0], SY[1]), (["and", J[3], SX[0]], SY[0])]:
+            out.append(dict(sub=dict(TWOs, select=sel, tree=["&", ["plain", b_], sx(a_)])))
+            out.append(dict(sub=dict(TWOs, select=sel, tree=["|", ["plain", b_], sx(a_)])))
+            out.append(dict(sub=dict(TWOs, select=sel, tree=["&", sy(a_), sx(J[4])])))
+            out.append(dict(sub=dict(TWOs, select=sel, tree=["|", ["&", ["plain", b_], sx(a_)], ["plain", J[4]]])))
     # rule trees (every tree of the C12 grammar with <= 4 branches; branch-variable and pair-matching variants for <= 3)
     from props import c12
     for B in range(1, (4 if tier == "quick" else 5) + 1):
